@@ -80,8 +80,11 @@ def finish(ctx, t0, extra_cov=None):
     try:
         counts = ctx.check_floors()
     except AnalysisBroken as e:
-        if not ctx.broken:
+        # a failed obligation is more informative than a missed instance floor: report the violation
+        if not ctx.broken and not any(not o['ok'] for o in ctx.obs):
             raise
+        if not any(not o['ok'] for o in ctx.obs):
+            ctx.broken.append(str(e))
         counts = {}
         for o in ctx.obs:
             counts[o['rule']] = counts.get(o['rule'], 0) + 1
@@ -95,7 +98,7 @@ def finish(ctx, t0, extra_cov=None):
             listed.append(o)
         else:
             unlisted.append(o)
-    evdir = os.path.join(VERIF, 'evidence')
+    evdir = os.environ.get('IVY_EVIDENCE_DIR') or os.path.join(VERIF, 'evidence')
     os.makedirs(os.path.join(evdir, 'replay'), exist_ok=True)
     distinct = set()
     for o in ctx.obs:
